@@ -278,4 +278,20 @@ theorem motion_in_space_is_linear (α δ r v μα μδ t : ℝ) (hr : r ≠ 0)
       -90 ≤ dec ∧ dec ≤ 90 :=
   motion_in_space_spec α δ r v μα μδ t hr hρ
 
+/-- "This holds for every declination including within 5 degrees of either pole": for both epochs within ±5
+    centuries of J2000 (|JDE − 2451545| ≤ 182625 days) the near-pole branch is exact too: every start with
+    85° < δ ≤ 90° is carried by the same rotation (θ stays below 6°, so the rotated declination stays positive and the
+    `acos` formula returns it).  Together with `equatorial_is_rotation` (δ ≤ 85°, any epochs) this covers the whole sphere. -/
+theorem equatorial_is_rotation_near_north_pole (e0 e1 α δ : ℝ) (hα : |α| < 360) (hδ : 85 < δ ∧ δ ≤ 90)
+    (h0 : |e0 - 2451545| ≤ 182625) (h1 : |e1 - 2451545| ≤ 182625) :
+    ∃ ra dec, precession_equatorial e0 e1 α δ 0 0 = .ok (ra, dec) ∧
+      dir ra dec = precessionRot (fk5Zeta e0 e1) (fk5Z e0 e1) (fk5Theta e0 e1) (dir α δ) ∧
+      |ra| < 360 ∧ -90 ≤ dec ∧ dec ≤ 90 :=
+  precession_equatorial_rot e0 e1 α δ hα (by rw [abs_lt]; constructor <;> linarith [hδ.1, hδ.2])
+    (Or.inr (fk5_polar_ok e0 e1 α δ hδ h0 h1))
+
+example : |(2451545 : ℝ) - 2451545| ≤ 182625 ∧ |(2469807.5 : ℝ) - 2451545| ≤ 182625 ∧ (85 : ℝ) < 89.26 ∧ (89.26 : ℝ) ≤ 90 := by
+  refine ⟨by norm_num, ?_, by norm_num, by norm_num⟩
+  rw [abs_le]; constructor <;> norm_num
+
 end Pymeeus.C06
